@@ -695,23 +695,24 @@ def run_multi(ctx, rng, exe, opa, n):
             ctx.violation(SITE, 'raises-' + type(ex).__name__, f'{type(ex).__name__}: {ex}',
                           case={'multi': [lean(c) for c in cases], 'ns': list(ns_list)}, impl=type(ex).__name__,
                           predicate='evaluate returns the value for every legal input')
-    # model pass 1: R_j of every dataset
-    lines = [model_line(c, 0.0, opa) for (cases, f, ns, v) in plan for c in cases]
-    out = common.ocaml_run(exe, lines) if lines else []
-    it = iter(out)
-    lines2 = []
-    for (cases, f, ns, v) in plan:
-        toks = ['multi', fhex(opa), fhex(ns), str(len(cases))] + [fhex(x) for x in f]
-        for c in cases:
-            r = next(it).split()[2:]
-            toks += [fhex(float(c['N'])), str(len(r))] + r
-        lines2.append(' '.join(toks))
-    out2 = common.ocaml_run(exe, lines2) if lines2 else []
-    for (cases, f, ns, v), line in zip(plan, out2):
-        ctx.corr_cases += 1
+    # model pass 1: R_j of every dataset; pass 2: the multi-dataset value
+    model_vals = [None] * len(plan)
+    if exe:
+        lines = [model_line(c, 0.0, opa) for (cases, f, ns, v) in plan for c in cases]
+        out = common.ocaml_run(exe, lines) if lines else []
+        it = iter(out)
+        lines2 = []
+        for (cases, f, ns, v) in plan:
+            toks = ['multi', fhex(opa), fhex(ns), str(len(cases))] + [fhex(x) for x in f]
+            for c in cases:
+                r = next(it).split()[2:]
+                toks += [fhex(float(c['N'])), str(len(r))] + r
+            lines2.append(' '.join(toks))
+        out2 = common.ocaml_run(exe, lines2) if lines2 else []
+        model_vals = [unhex(line.split()[0]) for line in out2]
+    for (cases, f, ns, v), mv in zip(plan, model_vals):
         ctx.case({'multi': [lean(c) for c in cases], 'ns': ns})
         rep = {'multi': [lean(c) for c in cases], 'f': f, 'ns': ns}
-        mv = unhex(line.split()[0])
         # predicate: sum of the single-dataset formulas at ns * f_j (f_j as provided by the weights service)
         tot, scale = [], 0.0
         for c, fj in zip(cases, f):
@@ -719,8 +720,10 @@ def run_multi(ctx, rng, exe, opa, n):
             tot.append(ov)
             scale += sc
         ov = math.fsum(tot)
-        if not close(v, mv, CORR_RTOL * (scale + 1.0)):
-            ctx.disagree('llhratio.multi_value', rep, v, mv)
+        if mv is not None:
+            ctx.corr_cases += 1
+            if not close(v, mv, CORR_RTOL * (scale + 1.0)):
+                ctx.disagree('llhratio.multi_value', rep, v, mv)
         if not close(v, ov, PRED_RTOL * (scale + 1.0)):
             ctx.violation(SITE, 'value-differs-from-sum-of-dataset-formulas',
                           f'ns={ns!r}: evaluate -> {v!r}, sum_j formula(ns f_j) -> {ov!r}', case=rep, impl=v, model=ov,
@@ -786,14 +789,14 @@ def run(ctx):
     ctx.sample({'kind': c['kind'], 'K': c['K'], 'N': c['N'], 'n_selected': len(sel_ids(c)), 'ns': c['ns'][:4],
                 'a_k': c['a_k']})
     ctx.sample({'corpus_base_ns': corpus_cases()[0]['ns'], 'threshold': opa})
-    if exe:
-        try:
+    try:
+        if exe:
             compare_model(ctx, jobs, exe, opa)
-            run_multi(ctx, rng, exe, opa, ctx.budget(40, 1200))
-        except RuntimeError as ex:
-            ctx.broken.append({'kind': 'model-eval', 'error': str(ex)[:1500]})
-    else:
-        ctx.notes.append('model did not build: implementation-only predicates were evaluated')
+        else:
+            ctx.notes.append('model did not build: implementation-only predicates were evaluated')
+        run_multi(ctx, rng, exe, opa, ctx.budget(40, 1200))
+    except RuntimeError as ex:
+        ctx.broken.append({'kind': 'model-eval', 'error': str(ex)[:1500]})
 
 
 def replay(ctx, rp):
@@ -805,7 +808,7 @@ def replay(ctx, rp):
     exe = common.ocaml_build(ctx, 'c01') if ctx.model_ok else None
     if 'multi' in c:
         ctx.notes.append('multi-dataset replay: re-running the multi-dataset stream with the recorded seed')
-        return run_multi(ctx, ctx.rng, exe, opa, 25) if exe else None
+        return run_multi(ctx, ctx.rng, exe, opa, 25)
     case = {k: c.get(k) for k in ('kind', 'K', 'n_all', 'N', 'order', 'selected', 'pairs', 'stacked', 'a_k',
                                   'factors', 'ns', 'malformed', 'implicit_N')}
     jobs = []
